@@ -390,6 +390,41 @@ Proof.
   reflexivity.
 Qed.
 
+(* where the trainer of the pipeline model stops without a ruleset (no valid password, or parse raises), the
+   translated run_trainer returns False / None and leaves the disk as it was *)
+Theorem run_trainer_none : forall base : path,
+  Pipeline.train E o seq = None ->
+  py_run_trainer PC pi base fs = (Ok (if @is_nil str seq then Some false else None), fs).
+Proof. intros base Hnone. rewrite run_trainer_is_pipeline, Hnone. reflexivity. Qed.
+
+(* ---------------------------------------------------------------- every accepted password is parsed exactly once *)
+
+Lemma parse_all_Forall2 : forall (f : str -> presult) (pws : list str) (rs : list parsed),
+  parse_all f pws = Some rs -> Forall2 (fun pw x => f pw = POk x) pws rs.
+Proof.
+  intros f pws. induction pws as [|pw r IH]; intros rs H; cbn [parse_all] in H.
+  - inversion H. constructor.
+  - destruct (f pw) as [|x] eqn:Ef; [discriminate H|]. destruct (parse_all f r) as [xs|]; [|discriminate H].
+    inversion H. constructor; [exact Ef | apply IH; reflexivity].
+Qed.
+
+(* in a run that returns True the parser handed to the writers holds exactly one parse result per password of
+   the sequence, in order, each the model's segmentation with the detector as pass 1 left it; its counters are
+   the tallies of these results (Pipeline.counters_of) *)
+Theorem run_true_parsed_once : forall (base : path) (fs' : fsys),
+  py_run_trainer PC pi base fs = (Ok (Some true), fs') ->
+  exists rs : list parsed,
+    Forall2 (fun pw x => parse_pw E mwf pw = POk x) seq rs /\
+    passes PC pi fs = Ok (inr (pipe_objs rs)) /\
+    pp_results (to_parser (pipe_objs rs)) = rs /\
+    pp_counters (to_parser (pipe_objs rs)) = counters_of rs.
+Proof.
+  intros base fs' H. rewrite py_run_trainer_is_model in H. unfold m_run_trainer in H. rewrite passes_inst in H |- *.
+  destruct (@is_nil str seq); [discriminate H|].
+  destruct (parse_all (parse_pw E mwf) seq) as [rs|] eqn:Ep; [|discriminate H].
+  exists rs. split; [exact (parse_all_Forall2 _ _ _ Ep)|]. repeat split; reflexivity.
+Qed.
+
 (* ---------------------------------------------------------------- what is on disk after a successful run *)
 
 Lemma some_case : forall {X Y : Type} (ox : option X) (f : X -> Y) (d y : Y), d <> y ->
